@@ -121,9 +121,18 @@ CHECKS = [
         "channel behaviour (receive returns the next sample or raises) is the scripted stream model; timestamps as integer grid ticks; "
         "IEEE doubles for sample values; FallbackFormulaMetricFetcher's lazy engine creation not under contract",
         "contract-based deductive verification with scripted stream collaborators and exception tables (z3)", "DESIGN.md 3 (C19)"),
+    chk("C06", "proof",
+        "Deductive proof of FormulaEvaluator.apply (initial synchronisation inlined) against scripted input streams with arbitrary first "
+        "timestamps: the steps read exactly the samples stamped with the emitted timestamp; the first run lands on the latest first "
+        "timestamp without reading beyond it; afterwards timestamps advance by one step, none skipped or repeated (class invariant "
+        "'aligned'). FormulaEngine3Phase._run never mixes timestamps when its phase streams start aligned; the unaligned start is a "
+        "recorded known finding with a native witness.",
+        "stream/channel model assumed (per-stream in-order delivery of first + k*step; interleavings irrelevant under it); two input "
+        "streams (structural bound); FormulaEngine._run not under contract",
+        "contract-based deductive verification with class invariant over scripted streams (z3)", "DESIGN.md 3 (C06)"),
 ]
 
 _PENDING = "check under construction in this session (contracts not yet written); will be claimed once its obligations discharge"
 NOT_APPLICABLE = [
     {"property_id": "C12", "reason": "formula generators are graph algorithms over networkx.DiGraph (recursive dfs, successor-set classification); no contract within reach of the VC generator expresses 'the generated formula balances for every valid graph' (DESIGN.md 4)"},
-] + [{"property_id": f"C{n:02d}", "reason": _PENDING} for n in (1, 2, 5, 6, 9, 20)]
+] + [{"property_id": f"C{n:02d}", "reason": _PENDING} for n in (1, 2, 5, 9, 20)]
